@@ -39,16 +39,63 @@ def _phase_sets(tr, b):
     return out
 
 
-def _attempt_writes(b):
+def _field_writes_named(b, name):
     out = []
     for i, blk in enumerate(b.blocks):
         for j, s in enumerate(blk["stmts"]):
             if s["k"] != "assign" or not s["lhs"]["p"]:
                 continue
             names = [e.get("n") for e in s["lhs"]["p"] if isinstance(e, dict) and "f" in e]
-            if names and names[-1] == "attempt":
+            if names and names[-1] == name:
                 out.append((i, j, s))
     return out
+
+
+def _discover_counter(tr, poll):
+    """the field of the future that poll increments by one (the per-request attempt counter), by role"""
+    cands = {}
+    for i, blk in enumerate(poll.blocks):
+        for j, s in enumerate(blk["stmts"]):
+            if s["k"] != "assign" or not s["lhs"]["p"]:
+                continue
+            names = [e.get("n") for e in s["lhs"]["p"] if isinstance(e, dict) and "f" in e]
+            if not names:
+                continue
+            v = peel(tr.stmt_value(poll, i, j))
+            if v[0] == "field" and peel(v[1])[0] == "binop":
+                v = peel(v[1])
+            if v[0] == "binop" and v[1] in ("Add", "AddWithOverflow") and peel(v[3])[0] == "const" and peel(v[3])[3] == "1":
+                cands[names[-1]] = cands.get(names[-1], 0) + 1
+    return sorted(cands, key=lambda k: -cands[k])[0] if cands else None
+
+
+def _sleep_done(tr, edges):
+    for e in edges:
+        n = e["node"]
+        if e["kind"] == "enum" and e["label"] == "Ready" and n[0] == "call" and "Sleep" in (tr.call_of(n).path or ""):
+            return True
+        if e["kind"] == "bool" and n[0] == "call":
+            c = tr.call_of(n)
+            if c.name in ("is_pending", "is_ready") and c.args:
+                src = peel(tr.expand(tr.operand(c.g.b, c.args[0], c.loc)))
+                if src[0] == "call" and "Sleep" in (tr.call_of(src).path or ""):
+                    if (c.name == "is_pending" and e["label"] == "false") or (c.name == "is_ready" and e["label"] == "true"):
+                        return True
+    return False
+
+
+def _flag_true(tr, edges, field):
+    for e in edges:
+        if e["kind"] != "bool":
+            continue
+        nd = e["node"]
+        neg = False
+        while nd[0] == "unop" and nd[1] == "Not":
+            neg = not neg
+            nd = peel(nd[2])
+        if mentions_field(tr, nd, field) and nd[0] != "call" and ((e["label"] == "true") != neg):
+            return True
+    return False
 
 
 def run(facts, tr, rep):
@@ -89,8 +136,8 @@ def run(facts, tr, rep):
         ok = False
         detail = ""
         if ph == "Sleeping":
-            sl = any(e["kind"] == "enum" and e["label"] == "Ready" and e["node"][0] == "call" and "Sleep" in (tr.call_of(e["node"]).path or "") for e in edges)
-            fl = any(e["kind"] == "bool" and e["label"] == "true" and mentions_field(tr, e["node"], "retry_on_reconnect") for e in edges)
+            sl = _sleep_done(tr, edges)
+            fl = _flag_true(tr, edges, "retry_on_reconnect")
             ok = sl and fl
             detail = "in the sleeping phase after the sleep completed and retry_on_reconnect was true"
         elif ph is not None:
@@ -99,8 +146,8 @@ def run(facts, tr, rep):
             ok = bool(enters)
             for (sc, v, nn) in enters:
                 ee = dominating_edges(tr, poll, sc.bb)
-                sl = any(e["kind"] == "enum" and e["label"] == "Ready" and e["node"][0] == "call" and "Sleep" in (tr.call_of(e["node"]).path or "") for e in ee)
-                fl = any(e["kind"] == "bool" and e["label"] == "true" and mentions_field(tr, e["node"], "retry_on_reconnect") for e in ee)
+                sl = _sleep_done(tr, ee)
+                fl = _flag_true(tr, ee, "retry_on_reconnect")
                 ok = ok and sl and fl
             detail = "in phase %s, which is entered only after the sleep completed and retry_on_reconnect was true" % ph
         rep.ob("C16.SITES", skey(poll, "retry-call#%d" % n), ok, c.where(),
@@ -109,7 +156,12 @@ def run(facts, tr, rep):
     # ---------------------------------------------------------------- RETRY-GATE
     inner_polls = [c for c in g.calls() if c.def_ == "core::future::future::Future::poll" and c.self_kind in ("alias", "param")]
     IP = [("call", poll.crate.name, poll.def_, c.bb) for c in inner_polls]
-    aw = _attempt_writes(poll)
+    CNT = _discover_counter(tr, poll)
+    if CNT is None:
+        rep.ob("C16.COUNTER", skey(poll, "attempt-counter"), False, "-", "poll increments no per-request counter")
+        return
+    rep.note("attempt counter field (by role): %s" % CNT)
+    aw = _field_writes_named(poll, CNT)
     incs = []
     for (i, j, s) in aw:
         v = peel(tr.stmt_value(poll, i, j))
@@ -155,30 +207,60 @@ def run(facts, tr, rep):
                 if mentions_field(tr, nd, "max_attempts") and c.bb in g.reach([bb], kinds=(N,)):
                     sw_max = sw
         bound_ok = False
-        if sw_max is not None:
-            # every path from the Some edge to the set passes the edge where attempt <= max holds
-            for bb in g.reach([sw_max.variants["Some"]], kinds=(N,)):
-                s2 = g.switch(bb)
-                if s2 is None or s2.kind != "bool":
-                    continue
-                cm = normalise_cmp(tr, peel(tr.expand(tr.operand(poll, s2.cond, (bb, len(g.stmts(bb)))))))
-                if cm is None:
-                    continue
-                op, x, y = cm
-                fx = "attempt" if any(n[0] == "field" and n[2] == "attempt" for n in tr.walk(x, limit=30)) else field_name(x)
-                fy = "attempt" if any(n[0] == "field" and n[2] == "attempt" for n in tr.walk(y, limit=30)) else field_name(y)
-                good_edge = None
-                if op == "Gt" and fx == "attempt" and mentions_field(tr, y, "max_attempts"):
-                    good_edge = (bb, s2.variants["false"])
-                if op == "Le" and fx == "attempt" and mentions_field(tr, y, "max_attempts"):
-                    good_edge = (bb, s2.variants["true"])
-                if op == "Lt" and fy == "attempt" and mentions_field(tr, x, "max_attempts"):
-                    good_edge = (bb, s2.variants["false"])
-                if op == "Ge" and fy == "attempt" and mentions_field(tr, x, "max_attempts"):
-                    good_edge = (bb, s2.variants["true"])
-                if good_edge:
-                    r = g.reach([sw_max.variants["Some"]], kinds=(N,), avoid_edges=[good_edge])
-                    bound_ok = c.bb not in r
+
+        def attempt_vs_max(cm):
+            """edge label on which attempt <= max holds, for a comparison between the counter and max_attempts"""
+            op, x, y = cm
+            fx = any(n[0] == "field" and n[2] == CNT for n in tr.walk(x, limit=30))
+            fy = any(n[0] == "field" and n[2] == CNT for n in tr.walk(y, limit=30))
+            mx = mentions_field(tr, x, "max_attempts")
+            my = mentions_field(tr, y, "max_attempts")
+            if op == "Gt" and fx and my:
+                return "false"
+            if op == "Le" and fx and my:
+                return "true"
+            if op == "Lt" and fy and mx:
+                return "false"
+            if op == "Ge" and fy and mx:
+                return "true"
+            return None
+        start_blocks = [sw_max.variants["Some"]] if sw_max is not None else [0]
+        for bb in g.reach(start_blocks, kinds=(N,)):
+            s2 = g.switch(bb)
+            if s2 is None or s2.kind != "bool":
+                continue
+            node2 = peel(tr.expand(tr.operand(poll, s2.cond, (bb, len(g.stmts(bb))))))
+            lab = None
+            cm = normalise_cmp(tr, node2)
+            if cm is not None:
+                lab = attempt_vs_max(cm)
+            else:
+                hb_ = tr.local_sync_callee(node2)
+                if hb_ is not None and hb_.local_ty(0)["s"] == "bool":
+                    # e.g. `config.attempts_exhausted(attempt)`: returns `attempt > max` when a maximum is set, else false
+                    with tr.bound(hb_, node2):
+                        labs = set()
+                        okh = True
+                        for r_ in tr.helper_returns(hb_):
+                            for lf in leaves(r_):
+                                lf = peel(tr.expand(lf, upvars=True))
+                                if lf[0] == "const":
+                                    if lf[1] != "false":
+                                        okh = False
+                                    continue
+                                cm2 = normalise_cmp(tr, lf)
+                                l2 = attempt_vs_max(cm2) if cm2 else None
+                                if l2 is None:
+                                    okh = False
+                                else:
+                                    labs.add(l2)
+                        if okh and labs == {"false"}:
+                            lab = "false"
+            if lab:
+                good_edge = (bb, s2.variants[lab])
+                r = g.reach(start_blocks, kinds=(N,), avoid_edges=[good_edge])
+                if c.bb not in r:
+                    bound_ok = True
         rep.ob("C16.RETRY-GATE", k + "|bound", bound_ok, c.where(),
                "with max_attempts = Some(max) back-off is entered only while attempt <= max" if bound_ok else
                "with max_attempts = Some(max) back-off can be entered without the test attempt <= max")
@@ -187,10 +269,19 @@ def run(facts, tr, rep):
         dfa = calls_in(tr, sl, lambda cc: cc.name == "delay_for_attempt")
         okd = False
         if dfa:
-            a = peel(tr.expand(tr.operand(poll, dfa[0].args[1], dfa[0].loc)))
-            while a[0] == "cast":
-                a = peel(a[2])
-            okd = any(x[0] == "field" and x[2] == "attempt" for x in tr.walk(a, limit=30))
+            a = peel(tr.expand(tr.operand(dfa[0].g.b, dfa[0].args[1], dfa[0].loc), upvars=True, params=True))
+            okd = any(x[0] == "field" and x[2] == CNT for x in tr.walk(a, limit=40))
+        else:
+            # the policy lookup may sit in a private helper (`retry_delay(config, attempt)`)
+            for x in tr.walk(sl, limit=60):
+                hb_ = tr.local_sync_callee(x) if x[0] == "call" else None
+                if hb_ is None:
+                    continue
+                inner = [cc for cc in graph(hb_).calls() if cc.name == "delay_for_attempt"]
+                if inner:
+                    with tr.bound(hb_, x):
+                        a = tr.expand(tr.operand(hb_, inner[0].args[1], inner[0].loc), upvars=True)
+                    okd = any(y[0] == "field" and y[2] == CNT for y in tr.walk(a, limit=40))
         rep.ob("C16.RETRY-GATE", k + "|delay", okd, c.where(),
                "the back-off lasts policy.delay_for_attempt(attempt)" if okd else "the back-off duration is not policy.delay_for_attempt(attempt)")
     # ---------------------------------------------------------------- COUNTER
@@ -202,8 +293,8 @@ def run(facts, tr, rep):
     # initialised to 0 where the future is built
     inits = []
     for (ab, i, j, rv) in agg_sites(facts, "tower_resilience_reconnect::service::ReconnectFuture"):
-        if "attempt" in rv["fields"]:
-            v = peel(tr.operand(ab, rv["ops"][rv["fields"].index("attempt")], (i, j)))
+        if CNT in rv["fields"]:
+            v = peel(tr.operand(ab, rv["ops"][rv["fields"].index(CNT)], (i, j)))
             inits.append((ab, i, j, v))
     for (ab, i, j, v) in inits:
         rep.ob("C16.COUNTER", skey(ab, "attempt-init"), v[0] == "const" and v[3] == "0", where(ab, i, j),
@@ -214,7 +305,7 @@ def run(facts, tr, rep):
     for b in facts.crates[CRATE].bodies:
         if b is poll:
             continue
-        for (i, j, s) in _attempt_writes(b):
+        for (i, j, s) in _field_writes_named(b, CNT):
             if "ReconnectFuture" in str(s["lhs"]["p"]) or "Projection" in str(s["lhs"]["p"]):
                 ext.append((b, i, j))
     rep.ob("C16.COUNTER", "%s|attempt-external-writers" % CRATE, not ext, "-",
@@ -240,13 +331,15 @@ def run(facts, tr, rep):
                        "ServiceError does not wrap the error that was just refused")
             elif v == "MaxAttemptsExceeded":
                 # payload = Box::new(last_error.take().unwrap()); last_error was assigned the current error on this path
-                from_last = any(x[0] == "field" and x[2] == "last_error" for x in tr.walk(payload, limit=40))
+                pf = {x[2] for x in tr.walk(payload, limit=40) if x[0] == "field"}
+                from_last = False
                 assigned = False
                 for ii, blk2 in enumerate(poll.blocks):
                     for jj, s2 in enumerate(blk2["stmts"]):
                         if s2["k"] == "assign" and s2["lhs"]["p"]:
                             names = [e.get("n") for e in s2["lhs"]["p"] if isinstance(e, dict) and "f" in e]
-                            if names and names[-1] == "last_error" and g.node_dominates(ii, i):
+                            if names and names[-1] in pf and g.node_dominates(ii, i):
+                                from_last = True
                                 val = peel(tr.stmt_value(poll, ii, jj))
                                 if val[0] == "agg":
                                     _bb, rv2 = tr.agg_of(val)
